@@ -32,10 +32,11 @@ class LiteSessionStore(SessionStore):
         return deviceIds
 
     def storeSession(self, recipientId, deviceId, sessionRecord):
-        self.deleteSession(recipientId, deviceId)
+        c = self.dbConn.cursor()
+        # replace within one transaction, a crash must not leave the contact without a session
+        c.execute("DELETE FROM sessions WHERE recipient_id = ? AND device_id = ?", (recipientId, deviceId))
 
         q = "INSERT INTO sessions(recipient_id, device_id, record) VALUES(?,?,?)"
-        c = self.dbConn.cursor()
         serialized = sessionRecord.serialize()
         c.execute(q, (recipientId, deviceId, buffer(serialized) if sys.version_info < (2,7) else serialized))
         self.dbConn.commit()
